@@ -41,6 +41,11 @@ CHECKS = {
    note="Graphs are realised through the go/types API (the builder's own type-declaration API is not under test here). Bounded: <= 4 struct types, <= 2 fields each, one member name, depth <= 3. Six known-finding groups (ambiguity accepted, needaddr accepted, MemberRef ignores methods / visibility, method-expression signatures). Trusted: TLC, go/types as validator.",
    technique="TLA+ transcription of Go's selector rules + TLC enumeration/sampling of type graphs + one implementation test per lookup",
    design_ref="DESIGN.md section 5 C08"),
+ "C13": dict(level="model_checking",
+   text="TypeSyntax.tla maps type terms (basic, unsafe.Pointer, local and imported named types incl. two packages with the same base name, pointers, slices, arrays, maps, three channel directions, functions with parameter/result lists and variadics, structs with embedded fields and tags incl. back quote / CR / LF, interfaces with methods and embedded interfaces) to the token sequence Go's grammar requires and parses them back with a recursive-descent parser for Go's type syntax written in TLA+; TLC checks Parse(Tokens(t)) = t on every term and refutes it when channel elements are never parenthesised. Every term is realised as a go/types type, declared through the builder as variable (file A), type definition, alias and parameter/result (file B), written, re-parsed, re-checked and structurally compared with the original.",
+   note="Bounded: all constructors over rich leaves at depth 1, over small leaves at depth 2 (thorough: depth 2 rich, binding-sensitive constructors at depth 3). No type parameters / instantiations / unions yet. Interface methods all have signature func(). Trusted: TLC, go/parser, go/types.",
+   technique="TLA+ token grammar + parser (print/parse identity checked by TLC) + declare/write/re-check replay per term",
+   design_ref="DESIGN.md section 5 C13"),
 }
 
 def sh(cmd):
